@@ -15,6 +15,7 @@ RULE = ('baselines of 2-8 integer points, slope -58..58 deg, sagitta up to 6 px,
         '0/1/2; line heights 16-64; scale 0.8-1.5; images smooth / checkerboard / noise (3 channels); degenerate lines (single point, identical points, vertical, 1-3 px, zero heights) '
         'for the fallback clause; LineCropper.process_page through its real constructor. non-trivial = non-degenerate line with >= 3 points; distinct = hash of (baseline, heights, parameters) Baselines of 17-40 points; heights as list / tuple / float64 / float32 / int arrays; LineCropper.process_page a second time after the lines moved and with another image. Pages smaller than a crop; right-to-left baselines; the fallback crop after the caller wrote into an earlier one.')
 RULE += ' Round 6: Pages with a side beyond 32767 px; grids for other row counts and a re-assigned line height; unsigned integer heights.'
+RULE += ' Round 9: Every given baseline point lies on the baseline row (within 2 px); three-point parabolas with a sagitta of 5-9 px.'
 RULE += ' Round 7: Outside lines starting exactly at the page edge; crops of one or two columns.'
 ASSUMPTIONS = ['baselines are generated from a polynomial of degree <= the fitted degree, then rounded to integers (the cropper casts baselines to int)',
                'numeric bounds (constants below) were calibrated on the repaired tree with about a 2x margin', 'cv2.remap agrees with float64 bilinear sampling within 1 grey level',
@@ -22,11 +23,12 @@ ASSUMPTIONS = ['baselines are generated from a polynomial of degree <= the fitte
                'degenerate lines are only required not to raise and to give the configured height']
 N = {'quick': 1500, 'thorough': 100000}
 CLASSES = ['inside', 'inside', 'curved', 'curved', 'partly_outside', 'outside', 'steep', 'short', 'degenerate', 'line_cropper', 'many_points', 'reversed', 'huge_page']
-REQUIRED = ['crops_of_one_or_two_columns', 'outside_lines_starting_at_the_page_edge', 'lines_on_pages_over_32767_px', 'grids_for_another_row_count', 'heights_as:uint8_array', 'fallback_crops_after_the_caller_wrote_into_an_earlier_one', 'degenerate_lines_on_tiny_pages', 'line_cropper_second_pass_lines', 'heights_as:float64_array', 'many_point_grids', 'long_lived_cropper_crops', 'crops', 'grids_checked', 'curved_grids', 'pixels_compared', 'general_path_crops', 'fast_path_crops', 'shift_compared', 'degenerate_checked', 'poly0_cubic_lines', 'line_cropper_lines']
+REQUIRED = ['three_point_parabolas', 'baseline_points_compared_with_the_baseline_row', 'crops_of_one_or_two_columns', 'outside_lines_starting_at_the_page_edge', 'lines_on_pages_over_32767_px', 'grids_for_another_row_count', 'heights_as:uint8_array', 'fallback_crops_after_the_caller_wrote_into_an_earlier_one', 'degenerate_lines_on_tiny_pages', 'line_cropper_second_pass_lines', 'heights_as:float64_array', 'many_point_grids', 'long_lived_cropper_crops', 'crops', 'grids_checked', 'curved_grids', 'pixels_compared', 'general_path_crops', 'fast_path_crops', 'shift_compared', 'degenerate_checked', 'poly0_cubic_lines', 'line_cropper_lines']
 # bounds (see DESIGN.md C10); measured maxima are reported in the evidence as observed_maxima
 B_CHORD = 0.05        # relative non-uniformity of the advance along the baseline row
 B_STEP = 0.02         # relative error of the mean advance vs (h_up+h_down)*scale/H (plus end effect 1/(W-1))
 B_END_FIRST = 2.0     # px, first baseline sample vs first baseline point
+B_FOLLOW = 2.0        # px, any given baseline point vs the polyline of baseline-row samples
 B_END_LAST = 2.5      # px + one sampling step
 B_COL_LIN = 2e-3      # px, deviation of a column from the straight equidistant segment between its ends
 B_SPAN = 1e-3         # px, column length vs (h_up+h_down)*scale
@@ -93,6 +95,10 @@ def gen(rng, i, ctx):
     if cls == 'curved' and deg >= 2:
         sag = float(rng.uniform(2, 6)) * float(rng.choice([-1, 1])) * min(1.0, L / 150.0)
         npts = max(npts, 4 if poly == 0 else 3)
+        if poly == 2 and rng.random() < 0.4:
+            # exactly as many points as the parabola has coefficients, and a clearly visible bend
+            npts = 3
+            sag = float(rng.uniform(5, 9)) * float(rng.choice([-1, 1])) * min(1.0, L / 150.0)
         L = max(L, 30.0 * npts)
     x0, y0 = float(rng.uniform(150, 400)), float(rng.uniform(300, 600))
     if cls == 'partly_outside':
@@ -332,6 +338,20 @@ def check(case, mon, ctx):
     mon.observe_max('first_point_px', d_first); mon.observe_max('last_point_px_minus_step', d_last)
     if d_first > B_END_FIRST or d_last > B_END_LAST:
         mon.violation('from-first-to-last-baseline-point', {'first_sample': base[0], 'first_point': pts[0], 'last_sample': base[-1], 'last_point': pts[-1]})
+    # the baseline row follows the baseline: every given point (the generated baselines are polynomials of at most the fitted degree, rounded to pixels)
+    # lies on the polyline of baseline-row samples; the last point may lie up to one step beyond the last sample
+    seg_a, seg_b = base[:-1], base[1:]
+    far = 0.0
+    for q in np.asarray(pts, dtype=np.float64)[:-1]:
+        ab = seg_b - seg_a
+        tt = np.clip(((q - seg_a) * ab).sum(1) / np.maximum((ab * ab).sum(1), 1e-12), 0.0, 1.0)
+        far = max(far, float(np.linalg.norm(seg_a + tt[:, None] * ab - q, axis=1).min()))
+    mon.count('baseline_points_compared_with_the_baseline_row', len(pts) - 1)
+    mon.observe_max('baseline_point_off_the_baseline_row_px', far)
+    if len(pts) == 3 and poly == 2 and abs(case['sagitta']) >= 5:
+        mon.count('three_point_parabolas')
+    if far > B_FOLLOW:
+        mon.violation('columns-advance-along-the-baseline', {'max_distance_of_a_baseline_point_from_the_baseline_row_px': far, 'points': len(pts), 'poly': poly, 'sagitta': case['sagitta']})
     # advance direction: from first towards last
     if np.dot(base[-1] - base[0], pts[-1] - pts[0]) <= 0:
         mon.violation('from-first-to-last-baseline-point', {'note': 'grid runs backwards'})
